@@ -28,6 +28,10 @@ CLAIMED = {
  'C04': ('proptest-generated marker-free text streams with sentinels, alone and interleaved with rendered sections; byte-identity oracle with independently computed permitted transforms',
          'Exploration: free text (with escape sequences, CR variants, invalid UTF-8, NUL) must come out byte for byte (after CR normalisation / lossy UTF-8), exactly once, in order, and correctly interleaved with the rendered sections, under all option sets.',
          'Trusted: marker set derived from handler gates; constructive CR cases; lines kept below max-line-length (truncation rule not asserted).', '3/C04'),
+
+ 'C05': ('proptest-generated two-way diffs x tagged option sets with number-format grammar; reference line counter; gutter cells read by tag',
+         'Exploration: the integers shown in the number cells of every rendered row must equal what an independent old/new counter gives for that hunk line (both views, all generated formats); continuation rows carry none; hunk-header rows show the new-file start and the path.',
+         'Trusted: terminal model, tag attribution of gutter cells, reference counter; side-by-side formats restricted to {nm} left / {np} right.', '3/C05'),
 }
 hook_commits = subprocess.check_output(['git','-C','/repo','log','--format=%H','--grep','^verif hook:'],text=True).split()
 checks = []
